@@ -20,7 +20,7 @@ RULE = ("one run = bring-up + one generated advanceBlockchain or updateAncestorB
         "partial/total answer are seeded draws; non-trivial = at least one block header was "
         "relayed; distinct = tuple (command, #blocks, field-count set, #brothers, brothers "
         "asked pattern, stop class, termination classes seen, tiny-header flag)")
-TIERS = {"quick": {"runs": 12000, "wall": 100}, "thorough": {"runs": 400000, "wall": 1500}}
+TIERS = {"quick": {"runs": 24000, "wall": 240}, "thorough": {"runs": 400000, "wall": 3000}}
 COMPONENTS = {
     "real": ["comm.server._RequestHandler", "comm.protocol", "ledger.protocol",
              "ledger.hsm2dongle (_do_block_operation, _send_block_header, _send_data_in_chunks)",
